@@ -71,6 +71,10 @@ Dist(E, X, o, k) == IF o \in X \/ k > 64 THEN k ELSE Dist(E, Nbrs(E, X), o, k + 
 \*   a member is a candidate writer of its net iff it is a constant or one
 \*   of its bits is in E0 or is carried by a non-writer member of ANOTHER
 \*   headed net (least fixed point).
+\*   Every non-writer member of a headed net is DRIVEN by the net (bit j of
+\*   the member by bit j of the writer).  Two distinct non-writer members of
+\*   ONE net that share a bit therefore drive that bit twice, from two
+\*   different bits of the writer ("overlapping slices" of C09): ROverlap.
 
 RBits(D, H, N)      == UNION {OBits(D, o) :
                                 o \in UNION {M[1] \ {M[2]} : M \in {K \in H : K[1] # N}}}
@@ -78,6 +82,7 @@ CandOf(D, E0, H, N) == {v \in N : IsConst(D, v) \/ OBits(D, v) \cap (E0 \cup RBi
 StepH(D, E0, nets, H) ==
     H \cup {<<N, CHOOSE v \in CandOf(D, E0, H, N) : TRUE>> :
               N \in {K \in nets \ {M[1] : M \in H} : Cardinality(CandOf(D, E0, H, K)) = 1}}
+ROverlap(D, N, w) == \E u, v \in N \ {w} : u # v /\ OBits(D, u) \cap OBits(D, v) # {}
 RECURSIVE FixH(_, _, _, _, _)
 FixH(D, E0, nets, H, n) == IF n = 0 THEN H
                            ELSE LET H2 == StepH(D, E0, nets, H)
@@ -129,6 +134,7 @@ Analysis(D, S) ==
         Hf    == FixH(D, E0, nets, {}, Cardinality(nets) + 1)
         FC    == [N \in nets |-> CandOf(D, E0, Hf, N)]
         wrt   == [N \in nets |-> IF Cardinality(FC[N]) = 1 THEN CHOOSE v \in FC[N] : TRUE ELSE 0]
+        rov   == {N \in nets : wrt[N] # 0 /\ ROverlap(D, N, wrt[N])}
         UE    == {{e[1], e[2]} : e \in {f \in E : f[1] # f[2]}}
         cyc   == {N \in nets : Cardinality({u \in UE : u \subseteq N}) >= Cardinality(N)}
         NetOf(o) == CHOOSE N \in nets : o \in N
@@ -140,9 +146,15 @@ Analysis(D, S) ==
                          ELSE IF Dist(E, {wrt[N]}, a, 0) < Dist(E, {wrt[N]}, b, 0)
                               THEN NetRule(D, a, b, D.stmts[i].at)
                               ELSE NetRule(D, b, a, D.stmts[i].at)
+        \* why a bit has two different drivers: two blocks / two candidate writers in a net
+        \* (block, top-level input, constant, relative driven by another net) / two overlapping
+        \* members driven by one net
+        mwwhy ==
+               (IF \E i, j \in blk : i # j /\ WBits(D, i) \cap WBits(D, j) # {} THEN {"blocks"} ELSE {})
+          \cup (IF \E N \in nets : Cardinality(FC[N]) > 1 THEN {"cands"} ELSE {})
+          \cup (IF rov # {} THEN {"rov"} ELSE {})
         defects ==
-               (IF \E i, j \in blk : i # j /\ WBits(D, i) \cap WBits(D, j) # {} THEN {"MW"} ELSE {})
-          \cup (IF \E N \in nets : Cardinality(FC[N]) > 1 THEN {"MW"} ELSE {})
+               (IF mwwhy # {} THEN {"MW"} ELSE {})
           \cup (IF \E N \in nets : FC[N] = {} THEN {"NW"} ELSE {})
           \cup (IF cyc # {} THEN {"Loop"} ELSE {})
           \cup (IF \E i \in conn : D.stmts[i].a = D.stmts[i].b THEN {"Self"} ELSE {})
@@ -155,9 +167,12 @@ Analysis(D, S) ==
         unspec ==
                (IF \E i, j \in conn : i # j /\ {D.stmts[i].a, D.stmts[i].b} = {D.stmts[j].a, D.stmts[j].b}
                 THEN {"DupConn"} ELSE {})
-          \cup (IF \E N \in nets : \E u, v \in N : u # v /\ OBits(D, u) \cap OBits(D, v) # {}
+          \* a non-writer member that shares bits with the WRITER of its own net (the net
+          \* feeds a signal back into itself), or overlapping members of a net without writer
+          \cup (IF \E N \in nets \ rov : \E u, v \in N : u # v /\ OBits(D, u) \cap OBits(D, v) # {}
                 THEN {"NetSelfOverlap"} ELSE {})
-    IN  [nets |-> nets, writer |-> wrt, cand |-> FC, defects |-> defects, unspec |-> unspec]
+    IN  [nets |-> nets, writer |-> wrt, cand |-> FC, rov |-> rov, mwwhy |-> mwwhy,
+         defects |-> defects, unspec |-> unspec]
 
 \* exception classes that report a defect class (SignalTypeError carries its [Type k])
 Image(d) ==
@@ -227,11 +242,17 @@ Headless  == OpNets \ {M[1] : M \in headed}
 NetAt(o) == CHOOSE N \in Headless : o \in N /\ \A p \in N : o <= p
 IsMin(o) == \E N \in Headless : o \in N /\ \A p \in N : o <= p
 
+\* the only candidate becomes the writer -- unless two of the members it would drive overlap
+OpOnly(N)  == CHOOSE v \in OpCand(N) : TRUE
 HeadNet(o) == /\ phase = "resolve" /\ IsMin(o) /\ Cardinality(OpCand(NetAt(o))) = 1
-              /\ headed' = headed \cup {<<NetAt(o), CHOOSE v \in OpCand(NetAt(o)) : TRUE>>}
+              /\ ~ROverlap(D0, NetAt(o), OpOnly(NetAt(o)))
+              /\ headed' = headed \cup {<<NetAt(o), OpOnly(NetAt(o))>>}
               /\ UNCHANGED <<did, done, part, wr, phase, verdict, fin>>
 
-Conflict(o) == /\ phase = "resolve" /\ IsMin(o) /\ Cardinality(OpCand(NetAt(o))) > 1
+Conflict(o) == /\ phase = "resolve" /\ IsMin(o)
+               /\ \/ Cardinality(OpCand(NetAt(o))) > 1
+                  \/ /\ Cardinality(OpCand(NetAt(o))) = 1
+                     /\ ROverlap(D0, NetAt(o), OpOnly(NetAt(o)))
                /\ verdict' = "MW" /\ phase' = "end"
                /\ UNCHANGED <<did, done, part, wr, headed, fin>>
 
@@ -242,7 +263,7 @@ Stuck == /\ phase = "resolve" /\ \A N \in Headless : OpCand(N) = {}
 Finish == /\ phase = "end" /\ ~fin
           /\ LET A == Analysis(D0, StmtIds(D0))
              IN  /\ \A N \in A.nets : PrintT(<<"R", did, "N", A.writer[N], N>>)
-                 /\ PrintT(<<"R", did, "D", A.defects, A.unspec>>)
+                 /\ PrintT(<<"R", did, "D", A.defects, A.unspec, A.mwwhy>>)
           /\ fin' = TRUE
           /\ UNCHANGED <<did, done, part, wr, phase, headed, verdict>>
 
@@ -266,7 +287,7 @@ Spec == Init /\ [][Next]_vars
 OpAgrees ==
     phase = "end" =>
         LET A  == Analysis(D0, StmtIds(D0))
-            mw == \E N \in A.nets : Cardinality(A.cand[N]) > 1
+            mw == (\E N \in A.nets : Cardinality(A.cand[N]) > 1) \/ A.rov # {}
             nw == \E N \in A.nets : A.cand[N] = {}
         IN  /\ OpNets = A.nets
             /\ wr = UNION {{<<i, o>> : o \in WObjs(D0, i)} : i \in {j \in StmtIds(D0) : IsBlk(D0, j)}}
